@@ -212,6 +212,38 @@ theorem bodyUpTo_length_nolinks (packed : List Obj) (h : ∀ o ∈ packed, o.lin
     rw [Nat.add_comm, this]
     rfl
 
+/-! ## values read from byte strings are small -/
+
+theorem foldl_be_bound (bs : List Nat) (h : ∀ x ∈ bs, x < 256) :
+    ∀ acc, bs.foldl (fun acc b => acc * 256 + b) acc + 1 ≤ (acc + 1) * 256 ^ bs.length := by
+  induction bs with
+  | nil => intro acc; simp
+  | cons x xs ih =>
+    intro acc
+    simp only [List.foldl_cons, List.length_cons]
+    have h1 := ih (fun y hy => h y (by simp [hy])) (acc * 256 + x)
+    have hx := h x (by simp)
+    have h2 : (acc * 256 + x + 1) * 256 ^ xs.length ≤ ((acc + 1) * 256) * 256 ^ xs.length :=
+      Nat.mul_le_mul_right _ (by omega)
+    rw [Nat.pow_succ, Nat.mul_comm (256 ^ xs.length) 256, ← Nat.mul_assoc]
+    omega
+
+theorem beValue_lt (bs : List Nat) (h : ∀ x ∈ bs, x < 256) : beValue bs < 256 ^ bs.length := by
+  have := foldl_be_bound bs h 0
+  simp only [Nat.zero_add, Nat.one_mul] at this
+  exact this
+
+theorem rdN_lt {w : Nat} {b : List Nat} {p v : Nat} (hb : ∀ x ∈ b, x < 256) (h : rdN w b p = some v) :
+    v < 256 ^ w := by
+  unfold rdN at h
+  split at h
+  · rename_i hp
+    cases h
+    have := beValue_lt ((b.drop p).take w) (fun x hx => hb x (List.mem_of_mem_drop (List.mem_of_mem_take hx)))
+    have hl : ((b.drop p).take w).length = w := by simp; omega
+    rwa [hl] at this
+  · cases h
+
 /-! ## a sequence of patches -/
 
 /-- patches that all lie at or behind `q` inside the object leave everything before `q` alone and keep
